@@ -195,7 +195,12 @@ var mutPieces = []string{
 	"task", "task t(", "task t() {", "}", "{", "(", ")", "\"", "\"s\"", ",", "->", "-> ", ":=", " := ", "#", "# c", "\n", "\r\n",
 	"\r", " ", "\t", "{{", "}}", "{{.X}}", "X", "x", "_", "é", "1", ".", "\x80", "\xff", "\x00", "*", "cmd", "\n\n", "#\n", "task ", "tasks",
 	") {", "\"\"", "()", "{}", "-", ">", ":", "=", "exec(", "join(", " ", " ", "\v", "\f",
+	"\ufeff", "\u200c", "\u200d", "\u00ad", "\u2028", "\u202e", "'", "e\u0301",
 }
+
+// mutPrefixes are put in front of a whole input: what editors and tools on other platforms
+// leave at the start of a text file.
+var mutPrefixes = []string{"\ufeff", "\ufeff\ufeff", "\xef\xbb", "\xff\xfe", "\n", " ", "\r\n", "\u200b", "#!spok\n"}
 
 // Mutator keeps a pool of inputs and derives new ones from it.
 type Mutator struct {
@@ -241,7 +246,7 @@ func (m *Mutator) Next() string {
 	s := core.Pick(m.R, m.Pool)
 	n := 1 + m.R.Intn(3)
 	for k := 0; k < n; k++ {
-		switch m.R.Intn(11) {
+		switch m.R.Intn(12) {
 		case 0: // insert a piece
 			i := m.R.Intn(len(s) + 1)
 			s = s[:i] + core.Pick(m.R, mutPieces) + s[i:]
@@ -294,6 +299,8 @@ func (m *Mutator) Next() string {
 				b[i] = byte(m.R.Intn(256))
 				s = string(b)
 			}
+		case 11: // put something in front of the whole input
+			s = core.Pick(m.R, mutPrefixes) + s
 		case 10: // move a line's content onto one line with another (delete newline + indentation)
 			if i := strings.Index(s, "\n    "); i >= 0 {
 				s = s[:i] + " " + s[i+5:]
